@@ -65,6 +65,8 @@ def plan(tier, seed):
                                 for f in (1.0, 0.5):
                                     for pose in ((4,) if tier == 'quick' and ci == 0 else (0, 4) if tier == 'quick' else (0, 1, 4, 5)):
                                         scs.append(dict(cell=ci, s=si, q=qi, r=ri, place=pl, replace_all=ra, ignore=ig, fraction=f, pose=pose))
+    scs += [dict(many=n, ignore=ig, r=r) for n in (6, 7) for ig in (0, 1) for r in (0, 1)]
+    scs += [dict(large=v, ignore=ig) for v in (0, 1) for ig in (0, 1)]
     return dict(scenarios=scs, exhaustive=True, chunk=40,
                 menus=dict(cells=[G.CELLS[i][0] for i in CELLSEL], structures=[s[0] for s in STRUCTS], search=[s[0] for s in SEARCH], replacements=[r[0] for r in replacements(['C', 'N'], SEARCH[0][2])],
                            placements=[p[0] for p in PLACES], replace_all=[0, 1], ignore_flag=[0, 1], fractions=[1.0, 0.5], draws='every sample subset and tie-break answer (unbounded: the trees are small)'),
@@ -75,6 +77,45 @@ def plan(tier, seed):
 
 def run(sc, ctx):
     out = dict(evals=0, compared=0, violations=[], outcomes={}, hashes={h64(sc)}, nontrivial=0)
+    if 'many' in sc:
+        # n^3 isolated H atoms (216 / 343): hundreds of matches, none overlapping; H -> F or H -> nothing
+        n = sc['many']; L = 3.0 * n; g = np.arange(n) * 3.0 + 1.0
+        pos = np.array(np.meshgrid(g, g, g)).T.reshape(-1, 3)
+        s = Atoms(elements=['H'] * len(pos), positions=pos, cell=np.diag([L, L, L]))
+        sp = Atoms(elements=['H'], positions=[(0.5, 0.5, 0.5)]); rp = Atoms(elements=['F'], positions=[(0.5, 0.5, 0.5)]) if sc['r'] == 0 else Atoms()
+        (res, err), _ = explorer(ctx).run(lambda: call(replace_pattern_in_structure, s, sp, rp, ignore_atoms_should_not_be_deleted_twice=bool(sc['ignore']), return_num_matches=True), ())
+        out['evals'] = 1; out['compared'] = 1
+        if err:
+            out['violations'].append(viol('no-false-refusal' if isinstance(err[0], AtomsShouldNotBeDeletedTwice) else 'no-result', 'many-matches:' + type(err[0]).__name__,
+                                          '%d isolated H atoms, no two matches share an atom, but the replacement raised %r' % (len(pos), err[0]), sc))
+        elif res[1] != len(pos) or len(res[0].atom_types) != (len(pos) if sc['r'] == 0 else 0):
+            out['violations'].append(viol('at-most-once', 'many-matches:count', '%d isolated H atoms: %r matches reported, %d atoms in the result' % (len(pos), res[1], len(res[0].atom_types)), sc))
+        out['outcomes']['many matches'] = 1; out['nontrivial'] = 1
+        return out
+    if 'large' in sc:
+        # 32768 inert He atoms, then a chain C-N-C through the +x face (variant 1: in the interior): the two C-N occurrences share the N atom;
+        # the occurrences are known by construction here (the search over > 2^15 atoms is itself under test)
+        L = 64.0; cell = np.diag([L, L, L]); g = np.arange(32) * 2.0 + 1.0
+        he = np.array(np.meshgrid(g, g, g)).T.reshape(-1, 3)
+        x0 = 62.9 if sc['large'] == 0 else 30.1
+        chain = wrap(np.array([(x0, 30.0, 30.0), (x0 + D, 30.0, 30.0), (x0 + 2 * D, 30.0, 30.0)]), cell)
+        s = Atoms(elements=['He'] * len(he) + ['C', 'N', 'C'], positions=np.vstack([he, chain]), cell=cell)
+        sp = pattern_atoms(['C', 'N'], [(0, 0, 0), (D, 0, 0)]); rp = pattern_atoms(['Xe', 'Xe'], [(0, 0, 0), (D, 0, 0)])
+        (res, err), _ = explorer(ctx).run(lambda: call(replace_pattern_in_structure, s, sp, rp, ignore_atoms_should_not_be_deleted_twice=bool(sc['ignore']), return_num_matches=True), ())
+        out['evals'] = 1; out['compared'] = 1
+        where = 'through the +x face' if sc['large'] == 0 else 'in the interior'
+        if sc['ignore']:
+            if err:
+                out['violations'].append(viol('no-result', 'large:' + type(err[0]).__name__, '%d atoms, C-N-C %s, overlap check switched off: raised %r' % (len(he) + 3, where, err[0]), sc))
+            elif res[1] != 2:
+                out['violations'].append(viol('at-most-once', 'large:count', '%d atoms, C-N-C %s: %r matches reported, there are 2 (C-N and N-C sharing the N atom)' % (len(he) + 3, where, res[1]), sc))
+        elif not err:
+            out['violations'].append(viol('refusal', 'large:silent-overlap', '%d atoms, C-N-C %s: both C-N occurrences remove the shared N atom, but a structure with %d atoms was returned (%r matches reported)' % (
+                len(he) + 3, where, len(res[0].atom_types), res[1]), sc))
+        elif not isinstance(err[0], AtomsShouldNotBeDeletedTwice):
+            out['violations'].append(viol('no-result', 'large:' + type(err[0]).__name__, '%d atoms, C-N-C %s: raised %r instead of the overlap error' % (len(he) + 3, where, err[0]), sc))
+        out['outcomes']['large overlap'] = 1; out['nontrivial'] = 1
+        return out
     cell = G.CELLS[sc['cell']][1]
     sname, sel_, scoord = STRUCTS[sc['s']]
     rot = sub_poses(ctx['seed'])[sc['pose']]
